@@ -11,6 +11,8 @@ import (
 	"math/big"
 	"encoding/hex"
 	"fmt"
+	"os"
+	"path/filepath"
 	"strings"
 
 	"massnet.org/mass/config"
@@ -19,6 +21,7 @@ import (
 	"massnet.org/mass/poc/wallet/keystore/wordlists"
 	"verif/harness/internal/ref"
 	"verif/harness/internal/vh"
+	"verif/harness/internal/wl"
 )
 
 const H = uint32(0x80000000)
@@ -305,6 +308,75 @@ func searchShortChild(k *hdkeychain.ExtendedKey, hard bool, start uint32, tries 
 	return 0, nil
 }
 
+var scopePurposes = []uint32{0, 1, 43, 45, 49, 84, 0x7fffffff, 44}
+
+func scopeCases(run *vh.Run, root *vh.Rng, base, n int) {
+	for i, p := range scopePurposes {
+		keystore.Net2KeyScope[uint32(9000+i)] = keystore.KeyScope{Purpose: p, Coin: uint32(9000 + i)}
+	}
+	wl.Setup(filepath.Join(run.Scratch, "log"), "error")
+	for si := 0; si < n; si++ {
+		ci := base + si
+		if !run.Want(ci) {
+			continue
+		}
+		rng := root.Derive("scope", si)
+		pi := si % len(scopePurposes)
+		purpose, coin := scopePurposes[pi], uint32(9000+pi)
+		params := *config.ChainParams
+		params.HDCoinType = coin
+		seed := rng.Bytes(32)
+		dir := filepath.Join(run.Scratch, fmt.Sprintf("scope-%d", si))
+		func() {
+			defer os.RemoveAll(dir)
+			w, err := wl.Create(filepath.Join(dir, "keystore"), wl.FreshPass(rng), nil)
+			if err != nil {
+				run.Drop("cannot create wallet store")
+				return
+			}
+			defer w.Close()
+			id, err := w.M.NewKeystore(wl.FreshPass(rng), seed, "scoped", &params, wl.FastScrypt)
+			if err != nil {
+				run.Drop("keystore under a registered scope refused: " + err.Error())
+				return
+			}
+			m, err := ref.Master(seed)
+			if err != nil {
+				run.Drop("reference rejects the seed")
+				return
+			}
+			acct := m
+			for _, idx := range []uint32{purpose + H, coin + H, 0 + H} {
+				if acct, err = acct.Child(idx); err != nil {
+					run.Drop("reference cannot derive the account key")
+					return
+				}
+			}
+			at := map[string]string{"class": "keystore-scope", "purpose_is_44": fmt.Sprint(purpose == 44)}
+			for br := uint32(0); br < 2; br++ {
+				nk := rng.Range(1, 3)
+				mas, err := w.M.NextAddresses(id, br == 1, uint32(nk))
+				if err != nil {
+					run.Violate(ci, "scoped-keystore-cannot-issue-keys", at, map[string]interface{}{"seed_hex": hex.EncodeToString(seed), "purpose": purpose, "coin": coin, "err": err.Error()})
+					return
+				}
+				brKey, _ := acct.Child(br)
+				for j, ma := range mas {
+					want, _ := brKey.Child(uint32(j))
+					got := hex.EncodeToString(ma.PubKey().SerializeCompressed())
+					run.Count("scoped_keystore_keys_compared", 1)
+					if got != hex.EncodeToString(want.Pub()) {
+						run.Violate(ci, "keystore-key-differs-from-bip32-path", at, map[string]interface{}{"seed_hex": hex.EncodeToString(seed),
+							"path": fmt.Sprintf("m/%d'/%d'/0'/%d/%d", purpose, coin, br, j), "impl_pub": got, "reference_pub": hex.EncodeToString(want.Pub())})
+						return
+					}
+				}
+			}
+			run.Case(vh.HashS(fmt.Sprintf("scope-%d-%x", purpose, seed)), true)
+		}()
+	}
+}
+
 func main() {
 	run := vh.NewRun("C18", "exploration")
 	if msg := validateRef(); msg != "" {
@@ -565,6 +637,14 @@ func main() {
 			run.Sample(map[string]interface{}{"entropy_hex": hex.EncodeToString(ent), "mnemonic": got})
 		}
 	})
+
+	// keystores under other key scopes: the wallet derives its account key through poc/wallet/keystore/hd.go
+	// (m/purpose'/coin'/account'); the purpose and coin type come from the exported scope table, so other scopes
+	// than the two built-in ones (both purpose 44) are registered here and whole keystores are compared with the
+	// reference: m/purpose'/coin'/0'/branch/index for every issued key
+	nScope := run.N(24, 400)
+	sbase := ebase + nEnt
+	scopeCases(run, root, sbase, nScope)
 
 	if run.Only < 0 && run.Counter("hardened_children_of_short_parent") == 0 {
 		run.Inconclusive("no hardened child of a short parent scalar was exercised")
